@@ -294,12 +294,16 @@ impl<RW: QueueRW<T>, T> MultiQueue<RW, T> {
                 if transaction.matches_previous(tail_cache) {
                     let new_tail = self.reload_tail_multi(tail_cache, wrap_valid_tag);
                     if transaction.matches_previous(new_tail) {
+                        #[cfg(multiqueue2_verif)]
+                        crate::verif_hooks::probe(crate::verif_hooks::p::SEND_FULL_RETURNED);
                         return Err(TrySendError::Full(val));
                     }
                 }
                 let write_cell = &mut *self.data.offset(chead);
                 let ref_cell = &*self.refs.offset(chead);
                 if !RW::check_ref(&ref_cell.refcnt) {
+                    #[cfg(multiqueue2_verif)]
+                    crate::verif_hooks::probe(crate::verif_hooks::p::PIN_CONFLICT_FULL);
                     return Err(TrySendError::Full(val));
                 }
                 fence(Acquire);
@@ -307,6 +311,8 @@ impl<RW: QueueRW<T>, T> MultiQueue<RW, T> {
                 match transaction.commit(1, Relaxed) {
                     Some(new_transaction) => transaction = new_transaction,
                     None => {
+                        #[cfg(multiqueue2_verif)]
+                        crate::verif_hooks::probe(crate::verif_hooks::p::CLAIMED_BEFORE_PUBLISH);
                         let current_tag = write_cell.wraps.load(Relaxed);
 
                         // This will delay the dropping of the exsisting item until
@@ -336,16 +342,22 @@ impl<RW: QueueRW<T>, T> MultiQueue<RW, T> {
             if transaction.matches_previous(tail_cache) {
                 let new_tail = self.reload_tail_single(wrap_valid_tag);
                 if transaction.matches_previous(new_tail) {
+                    #[cfg(multiqueue2_verif)]
+                    crate::verif_hooks::probe(crate::verif_hooks::p::SEND_FULL_RETURNED);
                     return Err(TrySendError::Full(val));
                 }
             }
             let write_cell = &mut *self.data.offset(chead);
             let ref_cell = &*self.refs.offset(chead);
             if !RW::check_ref(&ref_cell.refcnt) {
+                #[cfg(multiqueue2_verif)]
+                crate::verif_hooks::probe(crate::verif_hooks::p::PIN_CONFLICT_FULL);
                 return Err(TrySendError::Full(val));
             }
             fence(Acquire);
             transaction.commit_direct(1, Relaxed);
+            #[cfg(multiqueue2_verif)]
+            crate::verif_hooks::probe(crate::verif_hooks::p::CLAIMED_BEFORE_PUBLISH);
             let current_tag = write_cell.wraps.load(Relaxed);
             let _possible_drop = if RW::do_drop() && !is_tagged(current_tag) {
                 Some(ptr::read(&write_cell.val))
@@ -376,16 +388,22 @@ impl<RW: QueueRW<T>, T> MultiQueue<RW, T> {
                 if rm_tag(seen_tag) != wrap_valid_tag {
                     if self.writers.load(Relaxed) == 0 {
                         fence(Acquire);
+                        #[cfg(multiqueue2_verif)]
+                        crate::verif_hooks::probe(crate::verif_hooks::p::DISCONNECT_SECOND_LOOK);
                         if rm_tag(read_cell.wraps.load(Acquire)) != wrap_valid_tag {
                             return Err((ptr::null(), TryRecvError::Disconnected));
                         }
                     }
+                    #[cfg(multiqueue2_verif)]
+                    crate::verif_hooks::probe(crate::verif_hooks::p::RECV_EMPTY_RETURNED);
                     return Err((&read_cell.wraps, TryRecvError::Empty));
                 }
                 let ref_cell = &*self.refs.offset(ctail);
                 if !is_single {
                     RW::inc_ref(&ref_cell.refcnt);
                     if reader.load_count(Relaxed) != wrap_valid_tag {
+                        #[cfg(multiqueue2_verif)]
+                        crate::verif_hooks::probe(crate::verif_hooks::p::PIN_RECHECK_FAILED);
                         RW::dec_ref(&ref_cell.refcnt);
                         ctail_attempt = ctail_attempt.reload();
                         continue;
@@ -398,6 +416,8 @@ impl<RW: QueueRW<T>, T> MultiQueue<RW, T> {
                 }
                 match ctail_attempt.commit_attempt(1, Relaxed) {
                     Some(new_attempt) => {
+                        #[cfg(multiqueue2_verif)]
+                        crate::verif_hooks::probe(crate::verif_hooks::p::RECV_COMMIT_RETRY);
                         ctail_attempt = new_attempt;
                         RW::forget_val(rval);
                     }
@@ -420,10 +440,14 @@ impl<RW: QueueRW<T>, T> MultiQueue<RW, T> {
             if seen_tag != wrap_valid_tag {
                 if self.writers.load(Relaxed) == 0 {
                     fence(Acquire);
+                    #[cfg(multiqueue2_verif)]
+                    crate::verif_hooks::probe(crate::verif_hooks::p::DISCONNECT_SECOND_LOOK);
                     if rm_tag(read_cell.wraps.load(Acquire)) != wrap_valid_tag {
                         return Err((op, ptr::null(), TryRecvError::Disconnected));
                     }
                 }
+                #[cfg(multiqueue2_verif)]
+                crate::verif_hooks::probe(crate::verif_hooks::p::RECV_EMPTY_RETURNED);
                 return Err((op, &read_cell.wraps, TryRecvError::Empty));
             }
             dependently_mut(seen_tag, &mut read_cell.val, |rv_ref| {
@@ -436,6 +460,8 @@ impl<RW: QueueRW<T>, T> MultiQueue<RW, T> {
     }
 
     fn reload_tail_multi(&self, tail_cache: usize, count: usize) -> usize {
+        #[cfg(multiqueue2_verif)]
+        crate::verif_hooks::probe(crate::verif_hooks::p::TAIL_RELOADED);
         if let Some(max_diff_from_head) = self.tail.get_max_diff(count) {
             let current_tail = CountedIndex::get_previous(count, max_diff_from_head);
             if tail_cache == current_tail {
@@ -454,6 +480,8 @@ impl<RW: QueueRW<T>, T> MultiQueue<RW, T> {
     }
 
     fn reload_tail_single(&self, count: usize) -> usize {
+        #[cfg(multiqueue2_verif)]
+        crate::verif_hooks::probe(crate::verif_hooks::p::TAIL_RELOADED);
         let max_diff_from_head = self.tail.get_max_diff(count).expect(
             "The write head got ran over by consumers in single writer mode. This \
              process is borked!",
@@ -892,6 +920,8 @@ impl FutWait {
         if check(seq, at, wc) {
             return false;
         }
+        #[cfg(multiqueue2_verif)]
+        crate::verif_hooks::probe(crate::verif_hooks::p::TASK_PARKED_CONSUMER);
         parked.push_back(current());
         true
     }
@@ -919,6 +949,8 @@ impl FutWait {
         let mut parked = self.parked.lock();
         match f(val) {
             Err(TrySendError::Full(v)) => {
+                #[cfg(multiqueue2_verif)]
+                crate::verif_hooks::probe(crate::verif_hooks::p::TASK_PARKED_PRODUCER);
                 parked.push_back(current());
                 Err(TrySendError::Full(v))
             }
@@ -1021,6 +1053,8 @@ impl Clone for FutWait {
 impl<RW: QueueRW<T>, T> Drop for InnerSend<RW, T> {
     fn drop(&mut self) {
         self.queue.writers.fetch_sub(1, SeqCst);
+        #[cfg(multiqueue2_verif)]
+        crate::verif_hooks::probe(crate::verif_hooks::p::SENDER_DROP_DECREMENTED);
         fence(SeqCst);
         self.queue.manager.remove_token(self.token);
         self.queue.waiter.notify();
